@@ -1,4 +1,291 @@
-import RecipeGrid.Model.Markdown
+import RecipeGrid.Lemmas.Markdown
+/-! C13 — Markdown front end: (1) code blocks are grouped into independent recipes as documented;
+    (3) the chained `str.replace` of placeholders in `MarkdownRecipe.render` is a token-level substitution
+    whenever every placeholder occurs only at its own holes, so the result mentions no placeholder and does
+    not depend on the placeholders chosen. -/
 namespace RG.C13
-theorem groupBlocks_nil : groupBlocks [] = [] := by decide
+
+/-! ## C13.1 grouping -/
+
+/-- the recipe blocks of a document, by index, in document order -/
+def recipeIndices (blocks : List CodeBlockKind) : List Nat :=
+  (blocks.zipIdx.filter (·.1.isRecipe)).map (·.2)
+
+theorem group_flatten (blocks : List CodeBlockKind) : (groupBlocks blocks).flatten = recipeIndices blocks := by
+  simp [groupBlocks, recipeIndices, groupBlocksAux_flatten, finGroups]
+
+theorem group_nonempty (blocks : List CodeBlockKind) : ∀ g ∈ groupBlocks blocks, g ≠ [] :=
+  groupBlocksAux_nonempty _ _ (by simp)
+
+theorem group_heads (blocks : List CodeBlockKind) :
+    (groupBlocks blocks).map (·.head?) =
+      ((recipeIndices blocks).zipIdx.filter
+        (fun x => decide (x.2 = 0 ∨ blocks[x.1]?.map (·.startsNew) = some true))).map (fun x => some x.1) := by
+  unfold groupBlocks recipeIndices
+  rw [groupBlocksAux_heads_nil, heads_spec_eq, List.zipIdx_map, List.filter_map, List.map_map]
+  congr 1
+  apply List.filter_congr
+  rintro ⟨⟨k, i⟩, n⟩ hx
+  have h1 : (k, i) ∈ blocks.zipIdx.filter (·.1.isRecipe) := by
+    have := List.mem_zipIdx_iff_getElem?.mp hx
+    exact List.mem_of_getElem? this
+  have h2 : blocks[i]? = some k := by
+    have := (List.mem_filter.mp h1).1
+    simpa using List.mem_zipIdx_iff_getElem?.mp this
+  by_cases hn : n = 0 <;> simp [h2, hn]
+
+/-- pointwise reading: block `i` heads a group iff it is the first recipe block or a `new-recipe` block -/
+theorem group_head_iff (blocks : List CodeBlockKind) (i : Nat) :
+    (∃ g ∈ groupBlocks blocks, g.head? = some i) ↔
+      ∃ n, (recipeIndices blocks)[n]? = some i ∧ (n = 0 ∨ blocks[i]?.map (·.startsNew) = some true) := by
+  have h := group_heads blocks
+  have : (∃ g ∈ groupBlocks blocks, g.head? = some i) ↔ some i ∈ (groupBlocks blocks).map (·.head?) := by
+    simp [List.mem_map]
+  rw [this, h]
+  simp only [List.mem_map, List.mem_filter, decide_eq_true_eq, Option.some.injEq]
+  constructor
+  · rintro ⟨⟨j, n⟩, ⟨hm, hc⟩, rfl⟩
+    exact ⟨n, List.mem_zipIdx_iff_getElem?.mp hm, hc⟩
+  · rintro ⟨n, hn, hc⟩
+    exact ⟨(i, n), ⟨List.mem_zipIdx_iff_getElem?.mpr hn, hc⟩, rfl⟩
+
+theorem isRecipe_iff (k : CodeBlockKind) :
+    k.isRecipe = true ↔ k = .indented ∨ k = .fenced "recipe".toList ∨ k = .fenced "new-recipe".toList := by
+  cases k <;> simp [CodeBlockKind.isRecipe]
+
+theorem startsNew_iff (k : CodeBlockKind) : k.startsNew = true ↔ k = .fenced "new-recipe".toList := by
+  cases k <;> simp [CodeBlockKind.startsNew]
+
+example : groupBlocks [.indented, .fenced "python".toList, .fenced "recipe".toList, .fenced "new-recipe".toList, .indented]
+    = [[0, 2], [3, 4]] := by decide
+example : groupBlocks [.fenced "new-recipe".toList, .fenced "new-recipe".toList] = [[0], [1]] := by decide
+example : groupBlocks [.fenced "sh".toList] = [] := by decide
+
+/-! ## C13.3 placeholder substitution -/
+
+/-- unconditional laws of `replaceAll` (Python `str.replace`); the fuel of the model is immaterial -/
+theorem replaceAll_nil_pat (v s : Str) : replaceAll [] v s = s := _root_.RG.replaceAll_nil_pat v s
+theorem replaceAll_nil (p v : Str) : replaceAll p v [] = [] := _root_.RG.replaceAll_nil p v
+/-- leftmost, non-overlapping: at an occurrence write the value and skip the pattern, otherwise copy one character -/
+theorem replaceAll_unfold (p v : Str) (hp : p ≠ []) (c : Char) (rest : Str) :
+    replaceAll p v (c :: rest) =
+      if isPrefixOfStr p (c :: rest) then v ++ replaceAll p v ((c :: rest).drop p.length) else c :: replaceAll p v rest := by
+  split
+  · rename_i h; exact replaceAll_of_prefix v hp h
+  · rename_i h; exact replaceAll_of_not_prefix v hp (by simpa using h)
+/-- `pat in s` means: `pat` is a prefix of some remainder of `s` -/
+theorem isInfixOfStr_iff (p s : Str) : isInfixOfStr p s = true ↔ ∃ k, isPrefixOfStr p (s.drop k) = true :=
+  _root_.RG.isInfixOfStr_iff p s
+theorem isPrefixOfStr_iff (p s : Str) : isPrefixOfStr p s = true ↔ ∃ t, s = p ++ t := _root_.RG.isPrefixOfStr_iff p s
+theorem replaceAll_no_occurrence (p v s : Str) (h : ¬ isInfixOfStr p s = true) : replaceAll p v s = s :=
+  _root_.RG.replaceAll_no_occurrence p v s (by simpa using h)
+/-- text before the first occurrence is copied -/
+theorem replaceAll_append_lit (p v : Str) (hp : p ≠ []) (s rest : Str)
+    (h : ∀ k, k < s.length → isPrefixOfStr p ((s ++ rest).drop k) = false) :
+    replaceAll p v (s ++ rest) = s ++ replaceAll p v rest := replaceAll_append_of_no_occ p v hp s rest h
+/-- an occurrence at the front is replaced and skipped -/
+theorem replaceAll_append_pat (p v : Str) (hp : p ≠ []) (rest : Str) :
+    replaceAll p v (p ++ rest) = v ++ replaceAll p v rest := replaceAll_prefix_append p v hp rest
+
+inductive Tok where
+  | lit (s : Str)
+  | hole (i : Nat)
+deriving Repr, DecidableEq
+
+/-- the text of a template when hole `i` is written as `ph i` -/
+def flattenT (ph : Nat → Str) : List Tok → Str
+  | [] => []
+  | .lit s :: t => s ++ flattenT ph t
+  | .hole i :: t => ph i ++ flattenT ph t
+
+/-- token-level substitution: hole `i` is written as its value -/
+def fill (val : Nat → Str) (t : List Tok) : Str := flattenT val t
+
+/-- all start offsets at which `p` occurs in `s` -/
+def occurrences (p s : Str) : List Nat :=
+  (List.range (s.length + 1)).filter (fun k => isPrefixOfStr p (s.drop k))
+
+/-- start offsets (in the flattened text) of the `hole i` tokens -/
+def holeOffsets (i : Nat) (ph : Nat → Str) : List Tok → List Nat
+  | [] => []
+  | .lit s :: t => (holeOffsets i ph t).map (· + s.length)
+  | .hole j :: t => (if j = i then [0] else []) ++ (holeOffsets i ph t).map (· + (ph j).length)
+
+/-- every occurrence of `p` in the flattened text is exactly a `hole i` token -/
+def OnlyAtHoles (p : Str) (i : Nat) (ph : Nat → Str) (t : List Tok) : Prop :=
+  occurrences p (flattenT ph t) = holeOffsets i ph t
+
+instance (p : Str) (i : Nat) (ph : Nat → Str) (t : List Tok) : Decidable (OnlyAtHoles p i ph t) :=
+  inferInstanceAs (Decidable (_ = _))
+
+theorem occurrences_append (p s rest : Str) :
+    occurrences p (s ++ rest) =
+      (List.range s.length).filter (fun k => isPrefixOfStr p ((s ++ rest).drop k)) ++
+        (occurrences p rest).map (· + s.length) :=
+  range_filter_drop_append (isPrefixOfStr p) s rest
+
+theorem replaceAll_hole (p v : Str) (hp : p ≠ []) (t : List Tok) (i : Nat) (ph : Nat → Str) (hpi : ph i = p)
+    (hOnly : OnlyAtHoles p i ph t) :
+    replaceAll p v (flattenT ph t) = flattenT (fun j => if j = i then v else ph j) t := by
+  induction t with
+  | nil => simp [flattenT, replaceAll_nil]
+  | cons tok t ih =>
+    have key : ∀ (s : Str) (X : List Nat), (∀ x ∈ X, x < s.length) →
+        occurrences p (s ++ flattenT ph t) = X ++ (holeOffsets i ph t).map (· + s.length) →
+        (List.range s.length).filter (fun k => isPrefixOfStr p ((s ++ flattenT ph t).drop k)) = X ∧
+          OnlyAtHoles p i ph t := by
+      intro s X hX h
+      rw [occurrences_append] at h
+      exact append_map_add_inj (by intro x hx; simpa using (List.mem_filter.mp hx).1) hX h
+    cases tok with
+    | lit s =>
+      simp only [flattenT]
+      obtain ⟨h1, h2⟩ := key s [] (by simp) (by simpa [OnlyAtHoles, flattenT, holeOffsets] using hOnly)
+      rw [replaceAll_append_of_no_occ p v hp, ih h2]
+      intro k hk
+      have := List.filter_eq_nil_iff.mp h1 k (by simpa using hk)
+      simpa using this
+    | hole j =>
+      simp only [flattenT]
+      by_cases hj : j = i
+      · subst hj
+        obtain ⟨_, h2⟩ := key (ph j) [0] (by
+            have hl : 0 < p.length := List.length_pos_iff.mpr hp
+            simpa [hpi] using hl)
+          (by simpa [OnlyAtHoles, flattenT, holeOffsets] using hOnly)
+        rw [hpi, replaceAll_prefix_append p v hp, ih h2]
+        simp
+      · obtain ⟨h1, h2⟩ := key (ph j) [] (by simp) (by simpa [OnlyAtHoles, flattenT, holeOffsets, hj] using hOnly)
+        rw [replaceAll_append_of_no_occ p v hp, ih h2]
+        · simp [hj]
+        · intro k hk
+          have := List.filter_eq_nil_iff.mp h1 k (by simpa using hk)
+          simpa using this
+
+
+/-- `html.replace(ph 0, v₀).replace(ph 1, v₁)…`: the placeholders `ph n, ph (n+1), …` replaced one after the other -/
+def chainFrom (ph : Nat → Str) : Nat → List Str → Str → Str
+  | _, [], s => s
+  | n, v :: vs, s => chainFrom ph (n + 1) vs (replaceAll (ph n) v s)
+def chainReplace (ph : Nat → Str) (vals : List Str) (s : Str) : Str := chainFrom ph 0 vals s
+
+/-- the holes after `n` replacements: the first `n` carry their values, the rest still their placeholders -/
+def filledUpTo (ph : Nat → Str) (vals : List Str) (n : Nat) : Nat → Str :=
+  fun j => if j < n then vals.getD j [] else ph j
+
+/-- every replacement of the chain meets, in the *current* text, its placeholder only at its own holes -/
+def ChainOK (ph : Nat → Str) (vals : List Str) (t : List Tok) : Prop :=
+  ∀ n, n < vals.length → ph n ≠ [] ∧ OnlyAtHoles (ph n) n (filledUpTo ph vals n) t
+
+instance (ph : Nat → Str) (vals : List Str) (t : List Tok) : Decidable (ChainOK ph vals t) :=
+  inferInstanceAs (Decidable (∀ n, n < vals.length → _))
+
+/-- every hole of the template has a value -/
+def HolesBelow (n : Nat) (t : List Tok) : Prop := ∀ tok ∈ t, match tok with | .hole i => i < n | .lit _ => True
+
+theorem chainFrom_filledUpTo (t : List Tok) (vals : List Str) (ph : Nat → Str) (h : ChainOK ph vals t) :
+    ∀ d n, n + d = vals.length →
+      chainFrom ph n (vals.drop n) (flattenT (filledUpTo ph vals n) t) = flattenT (filledUpTo ph vals vals.length) t := by
+  intro d
+  induction d with
+  | zero =>
+    intro n hn
+    have : n = vals.length := by omega
+    subst this
+    simp [chainFrom]
+  | succ d ih =>
+    intro n hn
+    have hlt : n < vals.length := by omega
+    rw [List.drop_eq_getElem_cons hlt]
+    simp only [chainFrom]
+    obtain ⟨hne, hOnly⟩ := h n hlt
+    rw [replaceAll_hole (ph n) vals[n] hne t n (filledUpTo ph vals n) (by simp [filledUpTo]) hOnly]
+    have : (fun j => if j = n then vals[n] else filledUpTo ph vals n j) = filledUpTo ph vals (n + 1) := by
+      funext j
+      unfold filledUpTo
+      by_cases hj : j = n
+      · subst hj; simp [hlt]
+      · by_cases hj2 : j < n
+        · have : j < n + 1 := by omega
+          simp [hj, hj2, this]
+        · have : ¬ j < n + 1 := by omega
+          simp [hj, hj2, this]
+    rw [this]
+    exact ih (n + 1) (by omega)
+
+theorem flattenT_congr (f g : Nat → Str) (t : List Tok) (n : Nat) (hb : HolesBelow n t) (h : ∀ i, i < n → f i = g i) :
+    flattenT f t = flattenT g t := by
+  induction t with
+  | nil => rfl
+  | cons tok t ih =>
+    have ht : HolesBelow n t := fun x hx => hb x (List.mem_cons_of_mem _ hx)
+    cases tok with
+    | lit s => simp [flattenT, ih ht]
+    | hole i =>
+      have := hb (.hole i) (by simp)
+      simp [flattenT, ih ht, h i this]
+
+/-- replacing the placeholders one after the other = token-level substitution -/
+theorem chainReplace_eq_filledUpTo (t : List Tok) (vals : List Str) (ph : Nat → Str) (h : ChainOK ph vals t) :
+    chainReplace ph vals (flattenT ph t) = flattenT (filledUpTo ph vals vals.length) t := by
+  have := chainFrom_filledUpTo t vals ph h vals.length 0 (by simp)
+  have h0 : filledUpTo ph vals 0 = ph := by funext j; simp [filledUpTo]
+  simpa [h0, chainReplace] using this
+
+/-- C13.3 the rendered text is the template with every hole filled by its value: it mentions no placeholder -/
+theorem render_no_residue (t : List Tok) (vals : List Str) (ph : Nat → Str) (h : ChainOK ph vals t)
+    (hb : HolesBelow vals.length t) :
+    chainReplace ph vals (flattenT ph t) = fill (fun i => vals.getD i []) t := by
+  rw [chainReplace_eq_filledUpTo t vals ph h]
+  exact flattenT_congr _ _ t vals.length hb (fun i hi => by simp [filledUpTo, hi])
+
+/-- C13.3 the result does not depend on the placeholders chosen -/
+theorem render_placeholder_invariant (t : List Tok) (vals : List Str) (ph ph' : Nat → Str)
+    (h : ChainOK ph vals t) (h' : ChainOK ph' vals t) (hb : HolesBelow vals.length t) :
+    chainReplace ph vals (flattenT ph t) = chainReplace ph' vals (flattenT ph' t) := by
+  rw [render_no_residue t vals ph h hb, render_no_residue t vals ph' h' hb]
+
+
+
+/-- the model's replacement loops (`renderDoc`: a fold of `replaceAll` over (placeholder, value) pairs) are `chainReplace` -/
+theorem foldl_replaceAll_eq_chainFrom (pairs : List (Str × Str)) (ph : Nat → Str) (n : Nat) (s : Str)
+    (hph : ∀ k, (h : k < pairs.length) → ph (n + k) = pairs[k].1) :
+    pairs.foldl (fun h pv => replaceAll pv.1 pv.2 h) s = chainFrom ph n (pairs.map (·.2)) s := by
+  induction pairs generalizing n s with
+  | nil => rfl
+  | cons pv rest ih =>
+    have h0 := hph 0 (by simp)
+    simp only [Nat.add_zero, List.getElem_cons_zero] at h0
+    simp only [List.foldl_cons, List.map_cons, chainFrom, h0]
+    apply ih
+    intro k hk
+    have := hph (k + 1) (by simpa using hk)
+    simpa [Nat.add_assoc, Nat.add_comm 1 k] using this
+
+theorem foldl_replaceAll_eq_chainReplace (pairs : List (Str × Str)) (s : Str) :
+    pairs.foldl (fun h pv => replaceAll pv.1 pv.2 h) s =
+      chainReplace (fun i => (pairs.map (·.1)).getD i []) (pairs.map (·.2)) s :=
+  foldl_replaceAll_eq_chainFrom pairs _ 0 s (by intro k hk; simp [hk])
+
+/-- the scaled-value loop of `renderDoc` is a `chainReplace` -/
+theorem renderDoc_svs_loop (d : MdDoc) (k : Num) :
+    d.svs.foldl (fun h (phs : Str × SVS) => replaceAll phs.1 (renderSvs (Svs.scale k phs.2)) h) d.html =
+      chainReplace (fun i => (d.svs.map (·.1)).getD i []) (d.svs.map fun phs => renderSvs (Svs.scale k phs.2)) d.html := by
+  have := foldl_replaceAll_eq_chainReplace (d.svs.map fun phs => (phs.1, renderSvs (Svs.scale k phs.2))) d.html
+  simpa [List.foldl_map, Function.comp_def] using this
+
+-- non-vacuity: a two-hole template; the chain is fine with distinct placeholders …
+example : ChainOK (fun i => if i = 0 then "@A@".toList else "@B@".toList) ["1".toList, "22".toList]
+    [.lit "x ".toList, .hole 0, .lit " y ".toList, .hole 1, .hole 0] := by decide
+example : chainReplace (fun i => if i = 0 then "@A@".toList else "@B@".toList) ["1".toList, "22".toList]
+    (flattenT (fun i => if i = 0 then "@A@".toList else "@B@".toList) [.lit "x ".toList, .hole 0, .lit " y ".toList, .hole 1, .hole 0])
+    = "x 1 y 221".toList := by decide
+-- … and is rejected when a placeholder also occurs in a literal, straddles a token boundary, or is shared
+example : ¬ OnlyAtHoles "@A@".toList 0 (fun _ => "@A@".toList) [.lit "see @A@ ".toList, .hole 0] := by decide
+example : ¬ OnlyAtHoles "aa".toList 0 (fun _ => "aa".toList) [.lit "a".toList, .hole 0] := by decide
+example : ¬ OnlyAtHoles "@A@".toList 0 (fun _ => "@A@".toList) [.hole 0, .hole 1] := by decide
+-- without the side condition `str.replace` is NOT token-level substitution
+example : replaceAll "aa".toList "v".toList (flattenT (fun _ => "aa".toList) [.lit "a".toList, .hole 0]) ≠
+    flattenT (fun _ => "v".toList) [.lit "a".toList, .hole 0] := by decide
+
 end RG.C13
